@@ -6,6 +6,7 @@ import (
 	"runtime"
 	"runtime/debug"
 	"sync"
+	"sync/atomic"
 	"time"
 )
 
@@ -195,4 +196,33 @@ func armHangExit() {
 			os.Exit(7)
 		}()
 	})
+}
+
+var idleFloor atomic.Int64
+
+// Idle is called at the start of a case, before anything is built: it waits until the process is back at
+// its idle goroutine count (helpers and subjects of the previous case have really exited - on a loaded
+// machine a finished goroutine can stay counted for milliseconds) and returns that count. Baselines taken
+// later in the case are then exact instead of "stable for a while". The floor is learnt at the first case
+// and re-learnt (after settling for much longer) only when an earlier case leaked a goroutine for good.
+func Idle() int {
+	if f := int(idleFloor.Load()); f > 0 {
+		if n := WaitGoroutines(f, 2*time.Second); n <= f {
+			if n < f {
+				idleFloor.Store(int64(n))
+			}
+
+			return n
+		}
+	}
+	last, since := runtime.NumGoroutine(), time.Now()
+	for time.Since(since) < 20*time.Millisecond {
+		runtime.Gosched()
+		if n := runtime.NumGoroutine(); n != last {
+			last, since = n, time.Now()
+		}
+	}
+	idleFloor.Store(int64(last))
+
+	return last
 }
